@@ -51,6 +51,9 @@ def doc_enum():
                     "responses": ok,
                 }
             },
+            # a single possible input / no input at all: every phase produces the very same request
+            "/g": {"get": {"operationId": "getG", "parameters": [{"name": "x", "in": "query", "required": True, "schema": {"type": "integer", "enum": [1]}}], "responses": copy.deepcopy(docs.OK)}},
+            "/h": {"get": {"operationId": "getH", "responses": copy.deepcopy(docs.OK)}},
             "/f/{k}": {
                 "get": {
                     "operationId": "getF",
@@ -76,6 +79,9 @@ def doc_enum_linked():
 DOCS = dict(docs.DOCS, enum=doc_enum, enum_linked=doc_enum_linked)
 FAIL_ALL = [{"when": {"path_regex": "^/(a|b|c|r\\d|items)"}, "then": {"status": 500, "json": {}}}]
 FAIL_SOME = [{"when": {"path_regex": "^/(r[0246]|a|c)"}, "then": {"status": 500, "json": {}}}]
+FAIL_ENUM = [{"when": {"path_regex": "^/(e|f/|g|h)"}, "then": {"status": 500, "json": {}}}]
+CLOSE_ALL = [{"when": {"path_regex": "^/(a|b|c)"}, "then": {"close": True}}]
+CLOSE_SOME = [{"when": {"path_regex": "^/r[0-5]"}, "then": {"close": True}}]
 FAIL_GET_USER = [{"when": {"method": "GET", "path_regex": "^/users/"}, "then": {"status": 500, "json": {}}}]
 
 
@@ -115,9 +121,26 @@ def gen_cases(tier, seed):
                     "delay": rng.choice([None, {"point": "unit.case.enter", "hit": rng.randint(1, 6)}, {"point": "transport.send", "hit": rng.randint(1, 6)}, {"point": "stateful.step", "hit": rng.randint(1, 4)}]),
                 }
             )
+    # errored (not failed) scenarios count towards the limit as well
+    for mf in (1, 2):
+        for workers in (1, 2):
+            cases.append({"kind": "max_failures", "doc": "four", "cfg": {"phases": ["coverage", "fuzzing"], "max_examples": 3, "max_failures": mf, "workers": workers}, "rules": CLOSE_ALL, "rname": "closed"})
+            cases.append({"kind": "max_failures", "doc": "eight", "cfg": {"phases": ["examples", "coverage", "fuzzing"], "max_examples": 2, "max_failures": mf, "workers": workers}, "rules": CLOSE_SOME, "rname": "closed-some"})
+    # stop requests with the other options switched on
+    for doc, cfg in (
+        ("four", {"phases": ["fuzzing"], "max_examples": 25, "workers": 2, "unique_inputs": True}),
+        ("eight", {"phases": ["coverage", "fuzzing"], "max_examples": 25, "workers": 4, "unique_inputs": True}),
+        ("four", {"phases": ["fuzzing"], "max_examples": 25, "workers": 2, "continue_on_failure": True}),
+        ("four", {"phases": ["fuzzing"], "max_examples": 25, "workers": 1, "unique_inputs": True, "modes": ["positive", "negative"]}),
+    ):
+        for _ in range(6 if thorough else 3):
+            cases.append({"kind": "stop", "doc": doc, "cfg": cfg, "rules": [], "k": rng.randrange(6, 14), "delay": None})
     for workers in (1, 2, 4):
         for me in (15, 40):
             cases.append({"kind": "unique", "doc": "enum", "cfg": {"phases": ["coverage", "fuzzing"], "max_examples": me, "unique_inputs": True, "workers": workers}, "rules": []})
+        # the same request must not be repeated after it failed a check either (coverage and fuzzing meet on the enum values)
+        cases.append({"kind": "unique", "doc": "enum", "cfg": {"phases": ["coverage", "fuzzing"], "max_examples": 20, "unique_inputs": True, "workers": workers}, "rules": FAIL_ENUM, "rname": "fail"})
+        cases.append({"kind": "unique", "doc": "enum", "cfg": {"phases": ["examples", "coverage", "fuzzing"], "max_examples": 20, "unique_inputs": True, "workers": workers, "continue_on_failure": True}, "rules": FAIL_ENUM, "rname": "fail-continue"})
     cases.append({"kind": "unique", "doc": "enum", "cfg": {"phases": ["examples", "coverage", "fuzzing"], "max_examples": 30, "unique_inputs": True, "modes": ["positive", "negative"]}, "rules": []})
     for me in (6, 12):
         cases.append({"kind": "unique_stateful", "doc": "enum_linked", "cfg": {"phases": ["stateful"], "max_examples": me, "unique_inputs": True, "stateful_step_count": 6}, "rules": []})
